@@ -393,6 +393,12 @@ class Gen(object):
         if t != LIST:
             return self.expr(t, env, depth - 1, pure)
         a, b = self.operands([INT, LIST], env, depth, pure)
+        self.stats.add("quasiquote")
+        if self.ch.p(0.35):
+            # nested levels (R7RS 4.2.8): only what reaches level 0 is evaluated
+            self.stats.add("nested-quasiquote")
+            return self.ch.pick(["`(1 `(2 ,(3 ,%s)) ,@%s)", "`(1 `(2 ,@(3 ,%s)) . ,%s)", "`(a `(b ,(c ,@(list %s 0)) . ,%s))", "`(x `(y `(z ,,(q ,%s))) ,@%s)",
+                                 "`#(1 `(2 ,(v ,%s)) ,@%s)"]) % (a, b)
         return self.ch.pick(["`(1 ,%s ,@%s 9)", "`(,%s . ,%s)", "`((x ,%s) ,@%s)", "`(,@%s ,%s)"][:3]) % (a, b)
 
     def g_vector(self, t, env, depth, pure):
